@@ -102,9 +102,9 @@ static void prop(Ctx &c) {
     // one manual chunk larger than the compressor's window (4 MiB at the default level), then ordinary compressible chunks; the other
     // input has a short chunk in its place.  Whatever the first chunk was, the chunks of the shared suffix must come out the same.
     bool huge = c.gver >= 4 && c.rarely(c.tier ? 25 : 90); size_t hbig = 0;
-    if (huge) { cfg.manual = true; cfg.comp = ZCK_COMP_ZSTD; cfg.level = -1; cfg.chunk_max = -1; cfg.chunk_min = -1; cfg.dict.clear(); hbig = (4u << 20) + 1 + c.draw(1u << 20); size_t tail = 150000 + c.draw(250000);
-        D1 = gen::make_content(3, hbig, c.draw(0xffff)); Bytes t = gen::make_content(c.boolean() ? 6 : 5, tail, c.draw(0xffff)); D1.insert(D1.end(), t.begin(), t.end());
-        ends.clear(); ends.push_back(hbig); for (size_t p = hbig + 40000 + c.draw(40000); p < D1.size(); p += 50000 + c.draw(40000)) ends.push_back(p); c.label("chunk-larger-than-the-compressor-window"); }
+    if (huge) { cfg.manual = true; cfg.comp = ZCK_COMP_ZSTD; cfg.level = -1; cfg.chunk_max = -1; cfg.chunk_min = -1; cfg.dict.clear(); hbig = (4u << 20) + 1 + c.draw(1u << 20); size_t tail = 400000 + c.draw(400000);
+        D1 = gen::make_content(3, hbig, c.draw(0xffff)); Bytes t = gen::make_content(c.chance(2, 3) ? 8 : c.boolean() ? 6 : 5, tail, c.draw(0xffff)); D1.insert(D1.end(), t.begin(), t.end());
+        ends.clear(); ends.push_back(hbig); for (size_t p = hbig + 100000 + c.draw(60000); p < D1.size(); p += 100000 + c.draw(60000)) ends.push_back(p); c.label("chunk-larger-than-the-compressor-window"); }
     std::vector<size_t> cuts1 = gen_cuts(c, D1.size()), cuts2 = gen_cuts(c, D1.size());
     // edit
     Bytes D2 = D1; std::string edesc;
